@@ -60,8 +60,10 @@ type hbEpoch struct {
 }
 
 type hbInfo struct {
-	W     hbEpoch   // last write (G<0: none)
-	Reads []hbEpoch // reads since the last write, one per goroutine
+	W      hbEpoch   // last write (G<0: none)
+	Reads  []hbEpoch // reads since the last write, one per goroutine
+	Locked bool      // some earlier access held a lock
+	Locks  []string  // intersection of the locks held at the accesses that held one
 }
 
 func vcGet(vc []int, g int) int {
@@ -168,7 +170,21 @@ func (ex *Exec) hbAccess(st *State, id ObjID, sub int, write bool) {
 			}
 		}
 	}
-	ni := &hbInfo{W: info.W}
+	ni := &hbInfo{W: info.W, Locked: info.Locked, Locks: info.Locks}
+	// lock discipline (candidate generator only): a location that was accessed under a lock and is now accessed
+	// with no lock in common is a pre-emption point for pass 2, even if this schedule happened to order the
+	// accesses (e.g. because one goroutine did all the work)
+	if len(g.Held) > 0 {
+		if !ni.Locked {
+			ni.Locked, ni.Locks = true, append([]string(nil), g.Held...)
+		} else {
+			ni.Locks = intersect(ni.Locks, g.Held)
+		}
+	} else if ni.Locked {
+		ex.sh.mu.Lock()
+		ex.RacySites[site] = true
+		ex.sh.mu.Unlock()
+	}
 	if write {
 		ni.W = cur
 	} else {
@@ -189,10 +205,24 @@ func (ex *Exec) hbAccess(st *State, id ObjID, sub int, write bool) {
 		ex.RacySites[c.Site] = true
 	}
 	ex.sh.mu.Unlock()
-	if st.ReportRaces && id <= ex.BaseMax {
+	inCode := func(s string) bool {
+		return !strings.Contains(s, "zz_verif_") && !strings.Contains(s, "/zzverif/") && s != "?"
+	}
+	// heap objects: only races between two goroutines the code under test started (the harness goroutine reads
+	// results through unsynchronised getters after a grace period; that is the harness's business, not a finding)
+	if st.ReportRaces && (id <= ex.BaseMax || (st.ReportHeapRaces && inCode(site) && inCode(conflicts[0].Site) && g.ID != 0 && conflicts[0].G != 0)) {
 		name := ex.GlobalNames[id]
 		if name == "" {
-			name = fmt.Sprintf("package-level object %d", id)
+			if id <= ex.BaseMax {
+				name = fmt.Sprintf("package-level object %d", id)
+			} else {
+				// heap object: identify the race by its two code sites (order independent)
+				a, b := site, conflicts[0].Site
+				if b < a {
+					a, b = b, a
+				}
+				name = "heap object accessed at " + a + " and " + b
+			}
 		}
 		if !strings.Contains(name, "zzverif") {
 			if ex.raceSeen == nil {
@@ -420,7 +450,7 @@ func registerSync(ex *Exec) {
 		id := st.alloc(&Object{V: v})
 		return Ptr{Obj: id}, true
 	}
-	condL := func(st *State, c Ptr) string {
+	condL := func(ex *Exec, st *State, c Ptr) string {
 		l := ex.load(st, c.field(1)).(Iface)
 		return lockKey(l.V.(Ptr))
 	}
@@ -428,7 +458,7 @@ func registerSync(ex *Exec) {
 		c := args[0].(Ptr)
 		g := st.g()
 		ck := "cond" + lockKey(c)
-		lk := condL(st, c)
+		lk := condL(ex, st, c)
 		if g.CondPhase == 0 {
 			ex.visible(st, "Wait "+ck)
 			ex.unlock(st, lk)
@@ -537,6 +567,15 @@ func registerSync(ex *Exec) {
 		st.Sched = true
 		st.MaxPreempt = int(args[0].(*smt.Term).Val)
 		st.MaxFree = 2
+		if ex.TwoPass {
+			// combined mode: every sync operation is a pre-emption point and so is every access at a site the
+			// happens-before pass reported (pass 1 runs without pre-emptions and only collects those sites)
+			st.Eraser = true
+			if !ex.UseRacySites {
+				st.MaxPreempt = ex.Pass1Preempt
+				st.MaxFree = 0
+			}
+		}
 		return nil, true
 	}
 	I[zz+"ScheduleEraser"] = func(ex *Exec, st *State, args []Value, call ssa.CallInstruction) (Value, bool) {
@@ -550,7 +589,11 @@ func registerSync(ex *Exec) {
 		return nil, true
 	}
 	I[zz+"ReportRaces"] = func(ex *Exec, st *State, args []Value, call ssa.CallInstruction) (Value, bool) {
-		st.ReportRaces = true
+		st.ReportRaces = true // package-level state only
+		return nil, true
+	}
+	I[zz+"ReportHeapRaces"] = func(ex *Exec, st *State, args []Value, call ssa.CallInstruction) (Value, bool) {
+		st.ReportRaces, st.ReportHeapRaces = true, true // also heap objects, when both goroutines were started by the code under test
 		return nil, true
 	}
 	I[zz+"ScheduleRacy"] = func(ex *Exec, st *State, args []Value, call ssa.CallInstruction) (Value, bool) {
@@ -667,4 +710,17 @@ func registerAtomic(ex *Exec) {
 			return old
 		})
 	}
+}
+
+func intersect(a, b []string) []string {
+	var out []string
+	for _, x := range a {
+		for _, y := range b {
+			if x == y {
+				out = append(out, x)
+				break
+			}
+		}
+	}
+	return out
 }
